@@ -135,6 +135,59 @@ VertexNbhdOK(e) ==
 IsValidVertexOK(e) ==
   (e.o = 1) = (Mode(e.x) = 4 /\ ValidCell(OriginOf(e.x)) /\ e.x \in VSet(e.ov))
 
+\* ---- C09: gridDistance, local IJ ---------------------------------------------------------------
+\* gridDistance(a,b) and gridDistance(b,a) for valid cells of equal resolution
+DistOK(e) ==
+  LET ca == CellOf(e.a)   cb == CellOf(e.b) IN
+  /\ (e.r = E_SUCCESS => e.d >= 0 /\ Dist(ca, cb, e.d) = e.d)          \* BFS to radius d finds b at exactly d
+  /\ (e.r = E_SUCCESS /\ e.rr = E_SUCCESS => e.d = e.dr)
+  /\ (e.a = e.b => e.r = E_SUCCESS /\ e.d = 0)
+  /\ (cb \in N(ca) => e.r = E_SUCCESS /\ e.d = 1)
+DistMismatchOK(e) == Res(e.a) # Res(e.b) /\ e.r = E_RES_MISMATCH
+
+\* all targets from one origin (complete coarse resolutions): e.t[i] = [b, r, d]
+RECURSIVE AllLayersFrom(_, _, _)
+AllLayersFrom(acc, seen, frontier) ==
+  LET nxt == (UNION {N(c) : c \in frontier}) \ seen
+  IN IF nxt = {} THEN acc ELSE AllLayersFrom(Append(acc, nxt), seen \cup nxt, nxt)
+DistAllOK(e) ==
+  LET ca == CellOf(e.a)   L == AllLayersFrom(<<{ca}>>, {ca}, {ca}) IN
+  \A i \in 1..Len(e.t) :
+     LET q == e.t[i] IN
+     /\ ValidCell(q.b)
+     /\ (q.r = E_SUCCESS => q.d = DistIn(L, CellOf(q.b)))
+     /\ (q.b = e.a => q.r = E_SUCCESS /\ q.d = 0)
+     /\ (CellOf(q.b) \in L[2] => q.r = E_SUCCESS /\ q.d = 1)
+
+\* cellToLocalIj(o, h) then localIjToCell(o, that)
+LocalIjOK(e) == (e.r = E_SUCCESS /\ e.rb = E_SUCCESS) => e.back = e.h
+\* localIjToCell(o, (i,j)) then cellToLocalIj(o, that)
+IjToCellOK(e) ==
+  /\ (e.r = E_SUCCESS => ValidCell(e.c) /\ Res(e.c) = Res(e.o))
+  /\ (e.r = E_SUCCESS /\ e.r2 = E_SUCCESS => e.i2 = e.i /\ e.j2 = e.j)
+UnitSteps == {<<1, 0>>, <<-1, 0>>, <<0, 1>>, <<0, -1>>, <<1, 1>>, <<-1, -1>>}
+IjNbhdOK(e) ==
+  LET D == Disk(CellOf(e.o), e.k) IN
+  (\A x \in D : ~IsPentC(x)) =>
+     \A p \in 1..Len(e.cs) : \A q \in 1..Len(e.cs) :
+        LET x == e.cs[p]   y == e.cs[q] IN
+        (x.r = E_SUCCESS /\ y.r = E_SUCCESS /\ CellOf(y.h) \in N(CellOf(x.h)))
+           => <<y.i - x.i, y.j - x.j>> \in UnitSteps
+
+\* ---- C14: gridPathCells --------------------------------------------------------------------------
+\* e.o has e.n + e.pad entries; the driver pre-filled them with the sentinel
+PathOK(e) ==
+  LET ca == CellOf(e.a)   cb == CellOf(e.b) IN
+  /\ e.guard = 1
+  /\ (e.rs = E_SUCCESS => e.rd = E_SUCCESS /\ e.n = e.d + 1)
+  /\ (e.r = E_SUCCESS =>
+        /\ e.rs = E_SUCCESS
+        /\ e.o[1] = e.a /\ e.o[e.n] = e.b
+        /\ \A i \in 1..e.n : ValidCell(e.o[i]) /\ Res(e.o[i]) = Res(e.a)
+        /\ \A i \in 1..(e.n - 1) : CellOf(e.o[i + 1]) \in N(CellOf(e.o[i])))
+  /\ \A i \in (e.n + 1)..(e.n + e.pad) : Untouched(e.o[i])              \* nothing beyond the announced size
+  /\ (e.a = e.b \/ cb \in N(ca) => e.rs = E_SUCCESS /\ e.r = E_SUCCESS)
+
 EvOK(e) ==
   /\ (Has(e, "h") => ValidCell(e.h))
   /\ CASE e.e = "diskSafe"      -> DiskSafeOK(e)
@@ -149,6 +202,13 @@ EvOK(e) ==
        [] e.e = "isValidEdge"   -> IsValidEdgeOK(e)
        [] e.e = "vertexNbhd"    -> VertexNbhdOK(e)
        [] e.e = "isValidVertex" -> IsValidVertexOK(e)
+       [] e.e = "dist"          -> DistOK(e)
+       [] e.e = "distMismatch"  -> DistMismatchOK(e)
+       [] e.e = "distAll"       -> DistAllOK(e)
+       [] e.e = "localIj"       -> LocalIjOK(e)
+       [] e.e = "ijToCell"      -> IjToCellOK(e)
+       [] e.e = "ijNbhd"        -> IjNbhdOK(e)
+       [] e.e = "path"          -> PathOK(e)
        [] OTHER -> FALSE
 Init == l = 1
 Next == l <= Len(Tr) /\ IF EvOK(Tr[l]) THEN l' = l + 1 ELSE FALSE
